@@ -31,7 +31,7 @@ CLAIMED = {
     "C04": dict(
         text="Fixed method key entry point from MIR with key code (2^16), modifier byte (2^8) and number-pad option symbolic and the layout file an "
              "oracle: z3 decides on every path that exactly the entry named by the key-name table is consulted and exactly its text composed; "
-             "Kani cross-checks modifier decoding. Every path witness is replayed natively. The same is decided on the layout object the crate's own Layout::parse builds from MIR (one shape per layout key, its two planes absent / empty / any text). A layout change of a live context (new_with_config, key, finish, update_engine to another layout file, key) is executed from MIR with the real constructors and two layout files as oracles.",
+             "Kani cross-checks modifier decoding. Every path witness is replayed natively. The same is decided on the layout object the crate's own Layout::parse builds from MIR (one shape per layout key, its two planes absent / empty / any text). A layout change of a live context (new_with_config, key, finish, update_engine to another layout file, key) is executed from MIR with the real constructors and two layout files as oracles, there and back. A key without a value from every session state (idle with the scratch list of an erased word included) changes and shows nothing.",
         technique="symbolic execution of rustc MIR with z3 over the full key space + Kani/CBMC kernel"),
     "C05": dict(
         text="Memo transparency step: suggest() executed twice from MIR on the same object with shared data oracles (first with the memo holding the "
@@ -45,7 +45,7 @@ CLAIMED = {
     "C07": dict(
         text="Kani runs the real slice::sort over symbolic Rank values of the producible domain and decides the ordering clauses and stability; the MIR "
              "executor runs the whole phonetic assembly with auto-correct, dictionary, emoji and selection oracles and symbolic distances and z3 decides "
-             "the ranking clauses, English-last and no-duplicates on every path; executor and native build agree on concrete typed texts. Every dictionary-derived candidate carries the distance of its dictionary word / of its base. Two re-loads of the user's auto-correct file in a row under a free environment: a file newer than the last successful load is read.",
+             "the ranking clauses, English-last and no-duplicates on every path; executor and native build agree on concrete typed texts. Every dictionary-derived candidate carries the distance of its dictionary word / of its base. Two re-loads of the user's auto-correct file in a row under a free environment: a file newer than the last successful load is read; after a re-load the entries in force (added, changed, deleted) decide what is first also for memoised words.",
         technique="Kani/CBMC SAT (real std sort) + symbolic execution of rustc MIR with z3 (data oracles)"),
     "C08": dict(
         text="Suffix half: add_suffix_to_suggestions/suggest from MIR for a symbolic word with every split point, suffix and memo oracles: z3 decides that "
@@ -53,7 +53,7 @@ CLAIMED = {
         technique="symbolic execution of rustc MIR with z3 against reference joining rules"),
     "C09": dict(
         text="Learn round trip from MIR: suggest -> candidate_committed(any index other than the preselected one) -> suggest again, with data oracles and "
-             "concrete punctuation wrappers converted by the real okkhor: z3 decides that the committed text is preselected. The constructor reads the store under every option setting.",
+             "concrete punctuation wrappers converted by the real okkhor: z3 decides that the committed text is preselected. The constructor reads the store under every option setting. Words of 2-3 symbolic letters read as learned word + known suffix (table answers and learned choices of every prefix fixed up front): the joined form is preselected whenever offered.",
         technique="symbolic execution of rustc MIR with z3 (multi-step, data oracles)"),
     "C10": dict(
         text="PhoneticMethod::new, update_engine and candidate_committed from MIR with every file-system and serde_json call a nondeterministic oracle "
@@ -65,7 +65,8 @@ CLAIMED = {
         technique="symbolic execution of rustc MIR with z3 (paired runs)"),
     "C12": dict(
         text="One key from any composed text (all Unicode scalar values symbolic) with any key value under all 16 helper settings: z3 decides equality "
-             "with an ordered rule list written from the property text; where the text is silent the outcome must still be a rule outcome. A plain backspace removes exactly the last code point from any text of any scalar values.",
+             "with an ordered rule list written from the property text; where the text is silent the outcome must still be a rule outcome. A plain backspace removes exactly the last code point from any text of any scalar values. "
+             "The setting in force: RitiContext::new_with_config, update_engine with every option symbolic (layout file readable or not during the update) and a key, from MIR - the context holds the configuration it was last given.",
         technique="symbolic execution of rustc MIR with z3 against a reference rule table"),
     "C13": dict(
         text="Reph key from any composed text (all scalar values symbolic): z3 decides conservation for every text within the length bound and placement "
